@@ -63,6 +63,7 @@ def work(ctx, tier):
         for e in common.pick_entries(rng, rig.ENTRIES, 3):
             _one(ctx, sc, e, stats)
         ctx.inc("random_scenarios")
+    common.crossing_slice(ctx, tier, common.rng_for(ctx, "crossing"), lambda sc, e: _one(ctx, sc, e, stats))
     common.flush_stats(ctx, stats)
 
 
@@ -74,6 +75,7 @@ def conclude(ctx):
         "decision:abort": (ctx.cnt["decision:abort"], 300),
         "scenarios_with_raising_before_sleep": (ctx.cnt["scenarios_with_raising_before_sleep"], 300),
     }
+    common.crossing_floors(ctx, floors)
     cells = [k for k in ctx.cnt if k.startswith("placement:")]
     floors["placement cells (of 64)"] = (len(cells), 60)
     for fam in ("sync", "async-sync-hook/async-sleeper", "async-async-hook/async-sleeper", "async-async-hook/sync-sleeper", "async-lambda-hook/callable-sleeper", "async-sync-hook/lambda-sleeper", "async-async-hook/callable-sleeper"):
